@@ -255,3 +255,59 @@ func VerifC17Strings() {
 	}
 	nd.Reach("C17.strings")
 }
+
+var c17RoundCases = []struct {
+	x      float64
+	places int
+	want   float64
+}{
+	{2.345, 2, 2.35}, {2.344, 2, 2.34}, {-0.25, 1, -0.2}, {0.25, 1, 0.3}, {1234.5678, 0, 1235}, {1234.5678, 3, 1234.568},
+	{-2.5, 0, -2}, {2.5, 0, 3}, {-7.5, 0, -7}, {0.5, 0, 1}, {-0.5, 0, 0}, {1.005, 1, 1}, {12, 2, 12}, {-1.75, 1, -1.7}, {1.75, 1, 1.8},
+}
+
+// VerifC17RoundPlaces: round half up to the requested number of places (forked operand set:
+// the scaling by a power of ten is native), and the other numeric filters on integers,
+// numeric strings and negative operands.
+func VerifC17RoundPlaces() {
+	switch nd.Choice(3) {
+	case 0:
+		c := c17RoundCases[nd.Choice(len(c17RoundCases))]
+		v, err := fEval("x | round: p", map[string]any{"x": c.x, "p": c.places})
+		nd.Assert(err == nil, "round-places-no-error")
+		if err == nil {
+			d := v.(float64) - c.want
+			nd.Assert(d < 1e-9 && d > -1e-9, "round-half-up-to-places")
+		}
+	case 1:
+		a, b := nd.IntIn(-12, 12), nd.IntIn(-12, 12)
+		bind := map[string]any{"a": a, "b": b}
+		v, err := fEval("a | minus: b", bind)
+		nd.Assert(err == nil && v.(float64) == float64(a-b), "minus-on-integers")
+		v, err = fEval("a | times: b", bind)
+		nd.Assert(err == nil && v.(float64) == float64(a*b), "times-on-integers")
+		v, err = fEval("a | abs", bind)
+		want := a
+		if a < 0 {
+			want = -a
+		}
+		nd.Assert(err == nil && v.(float64) == float64(want), "abs-on-integers")
+		v, err = fEval("a | divided_by: b", bind)
+		if b == 0 {
+			nd.Assert(err != nil, "divided-by-zero-int-is-error")
+		} else {
+			nd.Assert(err == nil && v.(int64) == int64(a/b), "integer-division-truncates-toward-zero")
+		}
+	case 2:
+		v, err := fEval("'1.2' | ceil", nil)
+		nd.Assert(err == nil && v.(int) == 2, "ceil-of-numeric-string")
+		v, err = fEval("'-1.2' | floor", nil)
+		nd.Assert(err == nil && v.(int) == -2, "floor-of-numeric-string")
+		v, err = fEval("'7' | divided_by: 2", nil)
+		nd.Assert(err == nil && v.(int64) == 3, "numeric-string-integer-division")
+		v, err = fEval("7 | divided_by: 2.0", nil)
+		nd.Assert(err == nil && v.(float64) == 3.5, "float-divisor-real-division")
+		v, err = fEval("-7 | modulo: 3", nil)
+		nd.Assert(err == nil && v.(float64) == -1, "modulo-sign-of-dividend")
+	}
+	nd.Reach("C17.roundplaces")
+}
